@@ -208,7 +208,8 @@ def main():
         suffix = " no-failing-input-found" if v.get("no_failing_input_found") else ""
         print("VIOLATION property=%s replay=%s%s" % (prop, os.path.relpath(path, ROOT), suffix))
         rc = 1
-    write_evidence(prop, tier, seed, ctx, pr, len(violations), timer)
+    if not args.skip_proofs:  # a development run without the proof obligations never overwrites evidence
+        write_evidence(prop, tier, seed, ctx, pr, len(violations), timer)
     log("[%s] %s: %d evaluations, %d distinct non-trivial, %d violations, %d known (%.1fs)" % (
         prop, tier, ctx.evaluations, len(ctx.nontrivial), len(violations), len(known), timer.s()))
     return rc
